@@ -42,7 +42,7 @@ class Acc:
             self.samples.append(s)
 
     def candidate(self, **kw):
-        if len(self.candidates) < 200:
+        if len(self.candidates) < 400:
             self.candidates.append(kw)
         self.counts["vc_failed"] += 1
 
